@@ -254,20 +254,50 @@ func init() {
 			e.stringList(fn.lean+"Decisions", "conditions, type assertions and returns of `"+fn.goName+"`", dec)
 		}
 		e.shapeDef(s, f, "RedisLock.SetExpire", "setExpireShape")
-		e.shapeDef(s, f, "NewRedisLock", "newShape")
+		// the fields NewRedisLock sets (id must be a fresh random string per instance, key the caller's key)
+		if fd := s.findFunc(f, "NewRedisLock"); fd == nil {
+			e.errors = append(e.errors, "function NewRedisLock not found in "+f)
+			e.stringList("newFields", "MISSING", []string{"MISSING"})
+		} else {
+			var fields []string
+			ast.Inspect(fd.Body, func(n ast.Node) bool {
+				if cl, ok := n.(*ast.CompositeLit); ok && s.src(cl.Type) == "RedisLock" {
+					for _, el := range cl.Elts {
+						fields = append(fields, s.src(el))
+					}
+					return false
+				}
+				return true
+			})
+			e.stringList("newFields", "fields of the RedisLock literal built by NewRedisLock", fields)
+		}
 
 		for _, l := range []struct{ file, lean string }{{"core/stores/redis/lockscript.lua", "lockLua"}, {"core/stores/redis/delscript.lua", "delLua"}} {
 			raw, err := os.ReadFile(filepath.Join(*repo, l.file))
 			if err != nil {
 				e.errors = append(e.errors, "cannot read "+l.file)
-				e.stringList(l.lean, "MISSING "+l.file, []string{"MISSING"})
+				e.printf("/-- MISSING %s -/\ndef %s : List (Nat × String × Nat) := [(9, \"MISSING\", 0)]\n\n", l.file, l.lean)
 				continue
 			}
 			toks, err := luaTokens(string(raw))
 			if err != nil {
 				e.errors = append(e.errors, l.file+": "+err.Error())
 			}
-			e.stringList(l.lean, "tokens of "+l.file, toks)
+			e.printf("/-- tokens of %s as (kind, text, value): 0 word/punctuation, 1 string literal, 2 number -/\ndef %s : List (Nat × String × Nat) := [", l.file, l.lean)
+			for i, t := range toks {
+				if i > 0 {
+					e.printf(",")
+				}
+				switch {
+				case strings.HasPrefix(t, "\""):
+					e.printf("\n  (1, %s, 0)", leanString(t[1:len(t)-1]))
+				case t[0] >= '0' && t[0] <= '9':
+					e.printf("\n  (2, \"\", %s)", t)
+				default:
+					e.printf("\n  (0, %s, 0)", leanString(t))
+				}
+			}
+			e.printf("]\n\n")
 		}
 	})
 }
